@@ -29,7 +29,7 @@ theorem c15_h264_encoded (avc : Bool) (st : Bytes) (plan : List Item) (hw : plan
 theorem c15_h264_payloader (disable avc : Bool) (st : Bytes) (calls : List C10.RtCall)
     (hw : ∀ c ∈ calls, callWF c) :
     (run avc st (fragsCalls disable {} calls)).1 = (run avc [] (fragsCalls disable {} calls)).1 := by
-  obtain ⟨plan, e, w, _, _⟩ := history_plan disable calls hw
+  obtain ⟨plan, e, w, _, _, _⟩ := history_plan disable calls hw
   rw [e]
   exact c15_h264_encoded avc st plan w
 
